@@ -148,7 +148,7 @@ fn run_detector(segments: &[Vec<DltMessage>], second_thread: bool) -> Obs {
                 match b.get_one() {
                     Some(lc) => obs.table.push((*id, ecu_str(&lc.ecu), lc.nr_msgs, lc.start_time, lc.end_time(), lc.verif_resume_lc_id().unwrap_or(0))),
                     // a key whose value bag is empty is still a listed entry (readers iterate over it): recorded with 0 messages
-                    None => obs.table.push((*id, "?".to_string(), 0, BASE_US, BASE_US, 0)),
+                    None => obs.table.push((*id, "?".to_string(), 0, epoch(), epoch(), 0)),
                 }
             }
             obs.table.sort();
@@ -178,7 +178,7 @@ fn write_trace(t: &mut Trace, case: u64, hdr: Value, inputs: &[In], obs: &Obs) {
     t.ev(json!({"ev":"reset","case":case,"hdr":hdr}));
     let base = id_base(obs);
     for (i, x) in inputs.iter().enumerate() {
-        t.ev(json!({"ev":"in","idx":i,"ecu":x.ecu,"rx_ms":((x.rx_us.saturating_sub(BASE_US))/1000) as u32 & 0x7fff_ffff,"ts":x.ts_dms & 0x7fff_ffff,"kind":x.kind,"boot":x.boot,"ix":x.index.map(|v| (v & 0x7fff_ffff) as i64).unwrap_or(i as i64)}));
+        t.ev(json!({"ev":"in","idx":i,"ecu":x.ecu,"rx_ms":((x.rx_us.saturating_sub(epoch()))/1000) as u32 & 0x7fff_ffff,"ts":x.ts_dms & 0x7fff_ffff,"kind":x.kind,"boot":x.boot,"ix":x.index.map(|v| (v & 0x7fff_ffff) as i64).unwrap_or(i as i64)}));
     }
     for d in &obs.delivered {
         t.ev(json!({"ev":"out","idx":d.0,"ecu":d.1,"lc":rid(d.2, base),"visible":d.3,"ecu_ok":d.4,"vis2":d.5,"intact":d.6}));
@@ -192,8 +192,8 @@ fn write_trace(t: &mut Trace, case: u64, hdr: Value, inputs: &[In], obs: &Obs) {
     starts.sort();
     starts.dedup();
     let tab: Vec<Value> = obs.table.iter().map(|x| {
-        let tick = |us: u64| -> i64 { if us >= BASE_US && (us - BASE_US) / TICK_US < 0x7fff_ffff { ((us - BASE_US) / TICK_US) as i64 } else { -1 } };
-        let ongrid = x.3 >= BASE_US && (x.3 - BASE_US) % TICK_US == 0 && x.4 >= BASE_US && (x.4 - BASE_US) % TICK_US == 0;
+        let tick = |us: u64| -> i64 { if us >= epoch() && (us - epoch()) / TICK_US < 0x7fff_ffff { ((us - epoch()) / TICK_US) as i64 } else { -1 } };
+        let ongrid = x.3 >= epoch() && (x.3 - epoch()) % TICK_US == 0 && x.4 >= epoch() && (x.4 - epoch()) % TICK_US == 0;
         json!({"id":rid(x.0, base),"ecu":x.1,"nr":x.2,"start":tick(x.3),"end":tick(x.4),"ongrid":ongrid,
                "start_rank":starts.binary_search(&x.3).unwrap(),"res":rid(x.5, base)})
     }).collect();
@@ -206,8 +206,15 @@ fn write_trace(t: &mut Trace, case: u64, hdr: Value, inputs: &[In], obs: &Obs) {
     t.ev(json!({"ev":"end"}));
 }
 
+/// reception-time origin of the grid: 2022 by default; `--epoch0` puts the grid at the start of the Unix epoch (recordings of
+/// loggers without a real-time clock), where a timestamp can exceed the reception time
+static EPOCH: std::sync::atomic::AtomicU64 = std::sync::atomic::AtomicU64::new(vh::BASE_US);
+fn epoch() -> u64 {
+    EPOCH.load(std::sync::atomic::Ordering::Relaxed)
+}
+
 fn grid_in(ecu: &str, rx_tick: u64, ts_tick: u64, kind: &str) -> In {
-    In { ecu: ecu.to_string(), rx_us: BASE_US + rx_tick * TICK_US, ts_dms: (ts_tick * 10_000) as u32, kind: kind.to_string(), boot: 0, index: None }
+    In { ecu: ecu.to_string(), rx_us: epoch() + rx_tick * TICK_US, ts_dms: (ts_tick * 10_000) as u32, kind: kind.to_string(), boot: 0, index: None }
 }
 
 /// compare the observation with the prediction TLC printed for this behaviour (data equality only)
@@ -237,7 +244,7 @@ fn matches_prediction(scn: &Value, obs: &Obs) -> bool {
     }).collect();
     pt.sort();
     let ot: Vec<(u32, String, u32, u64, u64, u32)> = obs.table.iter().map(|x| {
-        (rid(x.0, base), x.1.clone(), x.2, (x.3 - BASE_US) / TICK_US, (x.4 - BASE_US) / TICK_US, rid(x.5, base))
+        (rid(x.0, base), x.1.clone(), x.2, (x.3 - epoch()) / TICK_US, (x.4 - epoch()) / TICK_US, rid(x.5, base))
     }).collect();
     pt == ot
 }
@@ -293,7 +300,10 @@ impl Gen {
         let ne = self.rng.range(1, 4) as usize;
         let names = ["EA", "EB", "ECUC", "D"];
         let n = self.rng.range(5, max_n);
-        let mut rx_us = BASE_US + self.rng.below(100_000_000);
+        // one stream in six is recorded by a logger without a real-time clock: reception times start near the Unix epoch, so
+        // that (garbage or large) timestamps can exceed the reception time
+        let origin = if self.rng.chance(1, 6) { self.rng.below(3_000_000_000) } else { epoch() };
+        let mut rx_us = origin + self.rng.below(100_000_000);
         // per ecu: (boot reception base, delay_us, last ts)
         let mut st: Vec<(u64, u64)> = (0..ne).map(|_| (rx_us.saturating_sub(self.rng.below(200_000_000)), self.rng.below(5_000_000))).collect();
         let mut v = Vec::new();
@@ -384,6 +394,9 @@ fn msgs_of(inputs: &[In], from: usize) -> Vec<DltMessage> {
 fn main() {
     quiet_panics();
     let a = Args::from_env();
+    if a.has("--epoch0") {
+        EPOCH.store(0, std::sync::atomic::Ordering::Relaxed);
+    }
     let mut t = Trace::create(&a.str("--out", "trace.ndjson"));
     let mut case = a.num("--first-case", 0);
     let mut rng = Rng::new(a.num("--seed", 1));
